@@ -217,6 +217,30 @@ def generate(tier):
         ps.append(Probe(f"auto/{aname}/send", prog("fn is_send<T: ?Sized + Send>() {}", f"is_send::<{ty}>();"), "reject", group="auto"))
         ps.append(Probe(f"auto/{aname}/sync", prog("fn is_sync<T: ?Sized + Sync>() {}", f"is_sync::<{ty}>();"), "reject", group="auto"))
         ps.append(Probe(f"auto/{aname}/named_twin", prog("fn is_sized<T: Sized>() {}", f"is_sized::<{ty}>();"), "accept", group="auto"))
+    # ---- smuggling a &'gc T into the root through a field the collector does not look at
+    smug = {
+        "require_static_field_with_bound": "#[derive(Collect)]\n#[collect(no_drop, bound = \"\")]\nstruct RX<'gc> { #[collect(require_static)] c: Cell<Option<&'gc Lock<u32>>>, g: Gc<'gc, Lock<u32>> }\n",
+        "require_static_field": "#[derive(Collect)]\n#[collect(no_drop)]\nstruct RX<'gc> { #[collect(require_static)] c: Cell<Option<&'gc Lock<u32>>>, g: Gc<'gc, Lock<u32>> }\n",
+        "require_static_type_with_bound": "#[derive(Collect)]\n#[collect(require_static, bound = \"\")]\nstruct RX<'gc> { c: Cell<Option<&'gc Lock<u32>>>, g: Gc<'gc, Lock<u32>> }\n",
+        "plain_cell_field": "#[derive(Collect)]\n#[collect(no_drop)]\nstruct RX<'gc> { c: Cell<Option<&'gc Lock<u32>>>, g: Gc<'gc, Lock<u32>> }\n",
+        "static_wrapper": "#[derive(Collect)]\n#[collect(no_drop)]\nstruct RX<'gc> { c: Static<Cell<Option<&'gc Lock<u32>>>>, g: Gc<'gc, Lock<u32>> }\n",
+        "phantom_is_fine_twin": None,
+    }
+    for name, items in smug.items():
+        if items is None:
+            items = "#[derive(Collect)]\n#[collect(no_drop)]\nstruct RX<'gc> { c: Cell<Option<u32>>, p: PhantomData<&'gc ()>, g: Gc<'gc, Lock<u32>> }\n"
+            body = "let mut arena = Arena::<Rootable![RX<'_>]>::new(|mc| RX { c: Cell::new(None), p: PhantomData, g: Gc::new(mc, Lock::new(1)) });\narena.mutate(|mc, root| { root.c.set(Some(root.g.get())); });\narena.finish_cycle();"
+            ps.append(Probe(f"smuggle_ref_into_root/{name}", prog(items, body), "accept", group="smuggle"))
+            continue
+        cnew = "Static(Cell::new(None))" if name == "static_wrapper" else "Cell::new(None)"
+        cset = "root.c.0.set" if name == "static_wrapper" else "root.c.set"
+        body = f"let mut arena = Arena::<Rootable![RX<'_>]>::new(|mc| RX {{ c: {cnew}, g: Gc::new(mc, Lock::new(1)) }});\narena.mutate(|mc, root| {{ {cset}(Some(Gc::as_ref(root.g))); }});\n// a root type that is not Collect may hold anything (the arena can then never collect): the escape needs a collection call\narena.finish_cycle();"
+        ps.append(Probe(f"smuggle_ref_into_root/{name}", prog(items, body), "reject", group="smuggle"))
+    hasher = "#[derive(Clone)]\nstruct BH<'gc>(&'gc Lock<u32>);\nimpl<'gc> std::hash::BuildHasher for BH<'gc> { type Hasher = std::collections::hash_map::DefaultHasher; fn build_hasher(&self) -> Self::Hasher { Default::default() } }\n"
+    for cname, cty, mk in (("HashMap", "std::collections::HashMap<u8, u8, BH<'gc>>", "std::collections::HashMap::with_hasher(BH(Gc::as_ref(g)))"), ("HashSet", "std::collections::HashSet<u8, BH<'gc>>", "std::collections::HashSet::with_hasher(BH(Gc::as_ref(g)))")):
+        items = hasher + f"#[derive(Collect)]\n#[collect(no_drop)]\nstruct RX<'gc> {{ m: {cty}, g: Gc<'gc, Lock<u32>> }}\n"
+        body = f"let mut arena = Arena::<Rootable![RX<'_>]>::new(|mc| {{ let g = Gc::new(mc, Lock::new(1)); RX {{ m: {mk}, g }} }});\\narena.finish_cycle();"
+        ps.append(Probe(f"smuggle_ref_into_root/hasher_in_{cname}", prog(items, body), "reject", group="smuggle"))
     # ---- root-type shapes (known-finding family)
     for shape in SHAPES:
         for entry in ("new", "mutate", "mutate_root", "map_root"):
